@@ -332,46 +332,91 @@ func (vfs *MemFS) Lchown(name string, uid, gid int) error {
 func (vfs *MemFS) Link(oldname, newname string) error {
 	const op = "link"
 
-	_, oChild, _, oerr := vfs.searchNode(oldname, slmLstat)
+	for {
+		retry, err := vfs.link(oldname, newname)
+		if !retry {
+			if err != nil {
+				return &os.LinkError{Op: op, Old: oldname, New: newname, Err: err}
+			}
+
+			return nil
+		}
+	}
+}
+
+// link creates newname as a hard link to the oldname file.
+// retry is true when the file found during the path walk
+// has been removed by another goroutine before it could be locked.
+func (vfs *MemFS) link(oldname, newname string) (retry bool, err error) {
+	oParent, oChild, oPI, oerr := vfs.searchNode(oldname, slmLstat)
 	if oerr != vfs.err.FileExists || oChild == nil {
-		return &os.LinkError{Op: op, Old: oldname, New: newname, Err: oerr}
+		return false, oerr
 	}
 
-	nParent, _, pi, nerr := vfs.searchNode(newname, slmLstat)
-	if !vfs.isNotExist(nerr) || !pi.IsLast() {
-		if vfs.OSType() == avfs.OsWindows && !vfs.isNotExist(nerr) {
-			nerr = avfs.ErrWinAlreadyExists
+	nParent, nChild, nPI, nerr := vfs.searchNode(newname, slmLstat)
+	if nerr != vfs.err.FileExists && !vfs.isNotExist(nerr) || vfs.isNotExist(nerr) && !nPI.IsLast() {
+		return false, nerr
+	}
+
+	// Both directories are locked (in the same order as Rename does) to check
+	// that the entries found during the path walks are still there.
+	first, second := oParent, nParent
+	if oParent != nParent {
+		oDirPath, nDirPath := oPI.Left(), nPI.Left()
+		if strings.HasPrefix(oDirPath, nDirPath) || !strings.HasPrefix(nDirPath, oDirPath) && nDirPath < oDirPath {
+			first, second = nParent, oParent
+		}
+	}
+
+	verifYield(&first.mu, true)
+	first.mu.Lock()
+	defer first.mu.Unlock()
+
+	if second != first {
+		verifYield(&second.mu, true)
+		second.mu.Lock()
+		defer second.mu.Unlock()
+	}
+
+	oIsRoot := oChild == node(oParent)
+	nIsRoot := nChild != nil && nChild == node(nParent)
+
+	if oParent.removed || nParent.removed ||
+		!oIsRoot && oParent.children[oPI.Part()] != oChild ||
+		!nIsRoot && nParent.children[nPI.Part()] != nChild {
+		return true, nil
+	}
+
+	if nChild != nil {
+		if vfs.OSType() == avfs.OsWindows {
+			return false, avfs.ErrWinAlreadyExists
 		}
 
-		return &os.LinkError{Op: op, Old: oldname, New: newname, Err: nerr}
+		return false, vfs.err.FileExists
 	}
 
-	verifYield(&nParent.mu, true)
-	nParent.mu.Lock()
-	defer nParent.mu.Unlock()
-
 	if !nParent.checkPermission(avfs.OpenWrite, vfs.User()) {
-		return &os.LinkError{Op: op, Old: oldname, New: newname, Err: vfs.err.PermDenied}
+		return false, vfs.err.PermDenied
 	}
 
 	c, ok := oChild.(*fileNode)
 	if !ok {
-		err := error(avfs.ErrOpNotPermitted)
 		if vfs.OSType() == avfs.OsWindows {
-			err = avfs.ErrWinAccessDenied
+			return false, avfs.ErrWinAccessDenied
 		}
 
-		return &os.LinkError{Op: op, Old: oldname, New: newname, Err: err}
+		return false, avfs.ErrOpNotPermitted
 	}
 
 	verifYield(&c.mu, true)
 	c.mu.Lock()
-	nParent.addChild(pi.Part(), c)
+	defer c.mu.Unlock()
+
+	nParent.addChild(nPI.Part(), c)
 
 	c.nlink++
-	c.mu.Unlock()
 
-	return nil
+	return false, nil
 }
 
 // Lstat returns a FileInfo describing the named file.
@@ -432,7 +477,8 @@ func (vfs *MemFS) Mkdir(name string, perm fs.FileMode) error {
 		return &fs.PathError{Op: op, Path: "", Err: vfs.err.NoSuchDir}
 	}
 
-	parent, _, pi, err := vfs.searchNode(name, slmEval)
+	// Mkdir does not follow a symbolic link given as last element : the name exists.
+	parent, _, pi, err := vfs.searchNode(name, slmLstat)
 	if !vfs.isNotExist(err) || !pi.IsLast() {
 		return &fs.PathError{Op: op, Path: name, Err: err}
 	}
@@ -440,6 +486,11 @@ func (vfs *MemFS) Mkdir(name string, perm fs.FileMode) error {
 	verifYield(&parent.mu, true)
 	parent.mu.Lock()
 	defer parent.mu.Unlock()
+
+	if parent.removed {
+		// the directory has been removed since it was found.
+		return &fs.PathError{Op: op, Path: name, Err: vfs.err.NoSuchDir}
+	}
 
 	if !parent.checkPermission(avfs.OpenWrite|avfs.OpenLookup, vfs.User()) {
 		return &fs.PathError{Op: op, Path: name, Err: vfs.err.PermDenied}
@@ -463,49 +514,68 @@ func (vfs *MemFS) Mkdir(name string, perm fs.FileMode) error {
 // If name is already a directory, MkdirAll does nothing
 // and returns nil.
 func (vfs *MemFS) MkdirAll(path string, perm fs.FileMode) error {
+	for {
+		retry, err := vfs.mkdirAll(path, perm)
+		if !retry {
+			return err
+		}
+	}
+}
+
+// mkdirAll creates a directory named name, along with any necessary parents.
+// retry is true when the directory or the entry found during the path walk
+// has been changed by another goroutine before the directory could be locked.
+func (vfs *MemFS) mkdirAll(path string, perm fs.FileMode) (retry bool, err error) {
 	const op = "mkdir"
 
 	parent, child, pi, err := vfs.searchNode(path, slmEval)
 	switch child.(type) {
 	case *dirNode:
 		if err != vfs.err.FileExists {
-			return &fs.PathError{Op: op, Path: path, Err: err}
+			return false, &fs.PathError{Op: op, Path: path, Err: err}
 		}
 
-		return nil
+		return false, nil
 	case *fileNode:
-		return &fs.PathError{Op: op, Path: pi.LeftPart(), Err: vfs.err.NotADirectory}
+		return false, &fs.PathError{Op: op, Path: pi.LeftPart(), Err: vfs.err.NotADirectory}
+	case *symlinkNode:
+		return false, &fs.PathError{Op: op, Path: path, Err: err}
+	}
+
+	if !vfs.isNotExist(err) {
+		return false, &fs.PathError{Op: op, Path: path, Err: err}
 	}
 
 	verifYield(&parent.mu, true)
 	parent.mu.Lock()
 	defer parent.mu.Unlock()
 
-	if !parent.checkPermission(avfs.OpenWrite|avfs.OpenLookup, vfs.User()) {
-		return &fs.PathError{Op: op, Path: path, Err: vfs.err.PermDenied}
+	if parent.removed || parent.children[pi.Part()] != nil {
+		// the directory has been removed or the name created since the path walk.
+		return true, nil
 	}
 
+	if !parent.checkPermission(avfs.OpenWrite|avfs.OpenLookup, vfs.User()) {
+		return false, &fs.PathError{Op: op, Path: path, Err: vfs.err.PermDenied}
+	}
+
+	// the new directories can't be reached by another goroutine as long as parent is locked.
 	dn := parent
 
 	for {
-		part := pi.Part()
-		if dn.children[part] != nil {
-			break
-		}
-
 		if dn != parent && !dn.checkPermission(avfs.OpenWrite|avfs.OpenLookup, vfs.User()) {
 			// the directory just created may not be writable by its creator (umask).
-			return &fs.PathError{Op: op, Path: path, Err: vfs.err.PermDenied}
+			return false, &fs.PathError{Op: op, Path: path, Err: vfs.err.PermDenied}
 		}
 
-		dn = vfs.createDir(dn, part, perm)
+		dn = vfs.createDir(dn, pi.Part(), perm)
 
 		if !pi.Next() {
 			break
 		}
 	}
 
-	return nil
+	return false, nil
 }
 
 // MkdirTemp creates a new temporary directory in the directory dir
@@ -534,44 +604,68 @@ func (vfs *MemFS) Open(name string) (avfs.File, error) {
 // methods on the returned File can be used for I/O.
 // If there is an error, it will be of type *PathError.
 func (vfs *MemFS) OpenFile(name string, flag int, perm fs.FileMode) (avfs.File, error) {
+	for {
+		f, retry, err := vfs.openFile(name, flag, perm)
+		if !retry {
+			return f, err
+		}
+	}
+}
+
+// openFile is the generalized open call.
+// retry is true when the directory or the entry found during the path walk
+// has been changed by another goroutine before the directory could be locked.
+func (vfs *MemFS) openFile(name string, flag int, perm fs.FileMode) (file avfs.File, retry bool, err error) {
 	const op = "open"
 
 	at := int64(0)
 	om := avfs.ToOpenMode(flag)
 
-	parent, child, pi, err := vfs.searchNode(name, slmEval)
+	// O_CREATE|O_EXCL does not follow a symbolic link given as last element : the name exists.
+	mode := slmEval
+	if om&avfs.OpenCreateExcl != 0 {
+		mode = slmLstat
+	}
+
+	parent, child, pi, err := vfs.searchNode(name, mode)
 	if err != vfs.err.FileExists && !vfs.isNotExist(err) || !pi.IsLast() {
-		return (*MemFile)(nil), &fs.PathError{Op: op, Path: name, Err: err}
+		return (*MemFile)(nil), false, &fs.PathError{Op: op, Path: name, Err: err}
+	}
+
+	if err == vfs.err.FileExists && om&avfs.OpenCreateExcl != 0 {
+		return (*MemFile)(nil), false, &fs.PathError{Op: op, Path: name, Err: vfs.err.FileExists}
 	}
 
 	if vfs.isNotExist(err) {
 		if om&avfs.OpenCreate == 0 {
-			return (*MemFile)(nil), &fs.PathError{Op: op, Path: name, Err: err}
+			return (*MemFile)(nil), false, &fs.PathError{Op: op, Path: name, Err: err}
 		}
 
 		verifYield(&parent.mu, true)
 		parent.mu.Lock()
 		defer parent.mu.Unlock()
 
-		if !parent.checkPermission(avfs.OpenWrite|avfs.OpenLookup, vfs.User()) {
-			return (*MemFile)(nil), &fs.PathError{Op: op, Path: name, Err: vfs.err.PermDenied}
-		}
-
 		part := pi.Part()
 
-		child = parent.children[part]
-		if child == nil {
-			child = vfs.createFile(parent, part, perm)
-			f := &MemFile{
-				nd:       child,
-				vfs:      vfs,
-				name:     name,
-				at:       at,
-				openMode: om,
-			}
-
-			return f, nil
+		if parent.removed || parent.children[part] != nil {
+			// the directory has been removed or the name created since the path walk.
+			return nil, true, nil
 		}
+
+		if !parent.checkPermission(avfs.OpenWrite|avfs.OpenLookup, vfs.User()) {
+			return (*MemFile)(nil), false, &fs.PathError{Op: op, Path: name, Err: vfs.err.PermDenied}
+		}
+
+		child = vfs.createFile(parent, part, perm)
+		f := &MemFile{
+			nd:       child,
+			vfs:      vfs,
+			name:     name,
+			at:       at,
+			openMode: om,
+		}
+
+		return f, false, nil
 	}
 
 	switch c := child.(type) {
@@ -581,7 +675,7 @@ func (vfs *MemFS) OpenFile(name string, flag int, perm fs.FileMode) (avfs.File, 
 		defer c.mu.Unlock()
 
 		if om&avfs.OpenCreateExcl != 0 {
-			return (*MemFile)(nil), &fs.PathError{Op: op, Path: name, Err: vfs.err.FileExists}
+			return (*MemFile)(nil), false, &fs.PathError{Op: op, Path: name, Err: vfs.err.FileExists}
 		}
 
 		// Truncating a file requires the write permission whatever the access mode.
@@ -591,7 +685,7 @@ func (vfs *MemFS) OpenFile(name string, flag int, perm fs.FileMode) (avfs.File, 
 		}
 
 		if !c.checkPermission(pm, vfs.User()) {
-			return (*MemFile)(nil), &fs.PathError{Op: op, Path: name, Err: vfs.err.PermDenied}
+			return (*MemFile)(nil), false, &fs.PathError{Op: op, Path: name, Err: vfs.err.PermDenied}
 		}
 
 		if om&avfs.OpenTruncate != 0 {
@@ -604,15 +698,15 @@ func (vfs *MemFS) OpenFile(name string, flag int, perm fs.FileMode) (avfs.File, 
 		defer c.mu.Unlock()
 
 		if om&avfs.OpenCreateExcl != 0 {
-			return (*MemFile)(nil), &fs.PathError{Op: op, Path: name, Err: vfs.err.FileExists}
+			return (*MemFile)(nil), false, &fs.PathError{Op: op, Path: name, Err: vfs.err.FileExists}
 		}
 
 		if om&(avfs.OpenWrite|avfs.OpenCreate|avfs.OpenTruncate) != 0 {
-			return (*MemFile)(nil), &fs.PathError{Op: op, Path: name, Err: vfs.err.IsADirectory}
+			return (*MemFile)(nil), false, &fs.PathError{Op: op, Path: name, Err: vfs.err.IsADirectory}
 		}
 
 		if !c.checkPermission(om, vfs.User()) {
-			return (*MemFile)(nil), &fs.PathError{Op: op, Path: name, Err: vfs.err.PermDenied}
+			return (*MemFile)(nil), false, &fs.PathError{Op: op, Path: name, Err: vfs.err.PermDenied}
 		}
 	}
 
@@ -624,7 +718,7 @@ func (vfs *MemFS) OpenFile(name string, flag int, perm fs.FileMode) (avfs.File, 
 		openMode: om,
 	}
 
-	return f, nil
+	return f, false, nil
 }
 
 // ReadDir reads the named directory,
@@ -684,22 +778,43 @@ func (vfs *MemFS) Rel(basepath, targpath string) (string, error) {
 func (vfs *MemFS) Remove(name string) error {
 	const op = "remove"
 
+	for {
+		retry, err := vfs.remove(name)
+		if !retry {
+			if err != nil {
+				return &fs.PathError{Op: op, Path: name, Err: err}
+			}
+
+			return nil
+		}
+	}
+}
+
+// remove removes the named file or (empty) directory.
+// retry is true when the entry found during the path walk
+// has been changed by another goroutine before it could be locked.
+func (vfs *MemFS) remove(name string) (retry bool, err error) {
 	parent, child, pi, err := vfs.searchNode(name, slmLstat)
 	if err != vfs.err.FileExists || child == nil {
-		return &fs.PathError{Op: op, Path: name, Err: err}
+		return false, err
 	}
 
 	if child == node(parent) {
 		// the root directory can't be removed.
-		return &fs.PathError{Op: op, Path: name, Err: vfs.err.InvalidArgument}
+		return false, vfs.err.InvalidArgument
 	}
 
 	verifYield(&parent.mu, true)
 	parent.mu.Lock()
 	defer parent.mu.Unlock()
 
+	part := pi.Part()
+	if parent.removed || parent.children[part] != child {
+		return true, nil
+	}
+
 	if !parent.checkPermission(avfs.OpenWrite, vfs.User()) {
-		return &fs.PathError{Op: op, Path: name, Err: vfs.err.PermDenied}
+		return false, vfs.err.PermDenied
 	}
 
 	child.Lock()
@@ -707,19 +822,14 @@ func (vfs *MemFS) Remove(name string) error {
 
 	if c, ok := child.(*dirNode); ok {
 		if len(c.children) != 0 {
-			return &fs.PathError{Op: op, Path: name, Err: vfs.err.DirNotEmpty}
+			return false, vfs.err.DirNotEmpty
 		}
-	}
-
-	part := pi.Part()
-	if parent.children[part] == nil {
-		return &fs.PathError{Op: op, Path: name, Err: vfs.err.NoSuchDir}
 	}
 
 	parent.removeChild(part)
 	child.delete()
 
-	return nil
+	return false, nil
 }
 
 // RemoveAll removes path and any children it contains.
@@ -735,74 +845,99 @@ func (vfs *MemFS) RemoveAll(path string) error {
 		return nil
 	}
 
+	for {
+		retry, err := vfs.removeAll(path)
+		if !retry {
+			if err != nil {
+				return &fs.PathError{Op: op, Path: path, Err: err}
+			}
+
+			return nil
+		}
+	}
+}
+
+// removeAll removes path and any children it contains.
+// retry is true when the entry found during the path walk
+// has been changed by another goroutine before it could be locked.
+func (vfs *MemFS) removeAll(path string) (retry bool, err error) {
 	parent, child, pi, err := vfs.searchNode(path, slmLstat)
 	if vfs.isNotExist(err) {
-		return nil
+		return false, nil
 	}
 
 	if err != vfs.err.FileExists {
-		return &fs.PathError{Op: op, Path: path, Err: err}
+		return false, err
 	}
+
+	verifYield(&parent.mu, true)
+	parent.mu.Lock()
+	defer parent.mu.Unlock()
 
 	if child == node(parent) {
 		// the root directory can't be removed : its content is removed.
-		err = vfs.removeAll(parent)
+		err = vfs.removeContent(parent)
 		if err == nil {
 			err = vfs.err.InvalidArgument
 		}
 
-		return &fs.PathError{Op: op, Path: path, Err: err}
+		return false, err
 	}
 
-	verifYield(&parent.mu, true)
-	parent.mu.Lock()
-	defer parent.mu.Unlock()
+	part := pi.Part()
+	if parent.removed || parent.children[part] != child {
+		return true, nil
+	}
+
+	child.Lock()
+	defer child.Unlock()
 
 	if c, ok := child.(*dirNode); ok {
-		err = vfs.removeAll(c)
+		err = vfs.removeContent(c)
 		if err != nil {
-			return &fs.PathError{Op: op, Path: path, Err: err}
+			return false, err
 		}
 	}
 
 	if ok := parent.checkPermission(avfs.OpenWrite, vfs.User()); !ok {
-		return &fs.PathError{Op: op, Path: path, Err: vfs.err.PermDenied}
+		return false, vfs.err.PermDenied
 	}
 
-	parent.removeChild(pi.Part())
+	parent.removeChild(part)
 	child.delete()
 
-	return nil
+	return false, nil
 }
 
-// removeAll removes the content of the directory parent.
+// removeContent removes the content of the directory dir, which must be locked by the caller.
 // An empty directory can be removed whatever its permissions, reading and modifying
 // a non empty one requires the read, write and lookup permissions.
-func (vfs *MemFS) removeAll(parent *dirNode) error {
-	verifYield(&parent.mu, true)
-	parent.mu.Lock()
-	defer parent.mu.Unlock()
-
-	if len(parent.children) == 0 {
+func (vfs *MemFS) removeContent(dir *dirNode) error {
+	if len(dir.children) == 0 {
 		return nil
 	}
 
-	if ok := parent.checkPermission(avfs.OpenRead|avfs.OpenWrite|avfs.OpenLookup, vfs.User()); !ok {
+	if ok := dir.checkPermission(avfs.OpenRead|avfs.OpenWrite|avfs.OpenLookup, vfs.User()); !ok {
 		return vfs.err.PermDenied
 	}
 
-	for name, child := range parent.children {
+	for name, child := range dir.children {
+		child.Lock()
+
 		if c, ok := child.(*dirNode); ok {
-			err := vfs.removeAll(c)
+			err := vfs.removeContent(c)
 			if err != nil {
+				child.Unlock()
+
 				return err
 			}
 		}
 
 		// the entry is removed as soon as its content is, so that a failure
 		// further on leaves a consistent directory.
-		parent.removeChild(name)
+		dir.removeChild(name)
 		child.delete()
+		child.Unlock()
 	}
 
 	return nil
@@ -815,37 +950,68 @@ func (vfs *MemFS) removeAll(parent *dirNode) error {
 func (vfs *MemFS) Rename(oldpath, newpath string) error {
 	const op = "rename"
 
+	for {
+		retry, err := vfs.rename(oldpath, newpath)
+		if !retry {
+			if err != nil {
+				return &os.LinkError{Op: op, Old: oldpath, New: newpath, Err: err}
+			}
+
+			return nil
+		}
+	}
+}
+
+// rename renames (moves) oldpath to newpath.
+// retry is true when an entry found during the path walks
+// has been changed by another goroutine before the directories could be locked.
+func (vfs *MemFS) rename(oldpath, newpath string) (retry bool, err error) {
 	oParent, oChild, oPI, oErr := vfs.searchNode(oldpath, slmLstat)
 	if oErr != vfs.err.FileExists {
-		return &os.LinkError{Op: op, Old: oldpath, New: newpath, Err: oErr}
+		return false, oErr
 	}
 
 	nParent, nChild, nPI, nErr := vfs.searchNode(newpath, slmLstat)
 	if nErr != vfs.err.FileExists && !vfs.isNotExist(nErr) || vfs.isNotExist(nErr) && !nPI.IsLast() {
-		return &os.LinkError{Op: op, Old: oldpath, New: newpath, Err: nErr}
+		return false, nErr
 	}
 
 	if oChild == node(oParent) || nChild != nil && nChild == node(nParent) {
 		// the root directory can't be renamed or replaced.
-		return &os.LinkError{Op: op, Old: oldpath, New: newpath, Err: vfs.err.InvalidArgument}
+		return false, vfs.err.InvalidArgument
 	}
 
-	verifYield(&oParent.mu, true)
-	oParent.mu.Lock()
-	defer oParent.mu.Unlock()
+	// Both directories are locked, an ancestor before its descendants and
+	// unrelated directories always in the same order, whatever the direction of the move.
+	first, second := oParent, nParent
+	if oParent != nParent {
+		oDirPath, nDirPath := oPI.Left(), nPI.Left()
+		if strings.HasPrefix(oDirPath, nDirPath) || !strings.HasPrefix(nDirPath, oDirPath) && nDirPath < oDirPath {
+			first, second = nParent, oParent
+		}
+	}
+
+	verifYield(&first.mu, true)
+	first.mu.Lock()
+	defer first.mu.Unlock()
+
+	if second != first {
+		verifYield(&second.mu, true)
+		second.mu.Lock()
+		defer second.mu.Unlock()
+	}
+
+	if oParent.removed || nParent.removed ||
+		oParent.children[oPI.Part()] != oChild || nParent.children[nPI.Part()] != nChild {
+		return true, nil
+	}
 
 	if !oParent.checkPermission(avfs.OpenWrite, vfs.User()) {
-		return &os.LinkError{Op: op, Old: oldpath, New: newpath, Err: vfs.err.PermDenied}
+		return false, vfs.err.PermDenied
 	}
 
-	if nParent != oParent {
-		verifYield(&nParent.mu, true)
-		nParent.mu.Lock()
-		defer nParent.mu.Unlock()
-
-		if !nParent.checkPermission(avfs.OpenWrite, vfs.User()) {
-			return &os.LinkError{Op: op, Old: oldpath, New: newpath, Err: vfs.err.PermDenied}
-		}
+	if nParent != oParent && !nParent.checkPermission(avfs.OpenWrite, vfs.User()) {
+		return false, vfs.err.PermDenied
 	}
 
 	oDir, oIsDir := oChild.(*dirNode)
@@ -853,17 +1019,17 @@ func (vfs *MemFS) Rename(oldpath, newpath string) error {
 	if oPI.Path() == nPI.Path() {
 		if oIsDir && vfs.Clean(oldpath) == vfs.Clean(newpath) && vfs.OSType() != avfs.OsWindows {
 			// os.Rename refuses an existing directory as new name, unless it is the same directory under another name.
-			return &os.LinkError{Op: op, Old: oldpath, New: newpath, Err: vfs.err.FileExists}
+			return false, vfs.err.FileExists
 		}
 
-		return nil
+		return false, nil
 	}
 
 	_, nIsDir := nChild.(*dirNode)
 
 	if !nIsDir && oIsDir && strings.HasPrefix(nPI.Path(), oPI.Path()+string(vfs.PathSeparator())) {
 		// A directory can't be moved into itself.
-		return &os.LinkError{Op: op, Old: oldpath, New: newpath, Err: vfs.err.InvalidArgument}
+		return false, vfs.err.InvalidArgument
 	}
 
 	if nChild == nil && oIsDir && nParent != oParent {
@@ -874,41 +1040,39 @@ func (vfs *MemFS) Rename(oldpath, newpath string) error {
 		oDir.mu.RUnlock()
 
 		if !ok {
-			return &os.LinkError{Op: op, Old: oldpath, New: newpath, Err: vfs.err.PermDenied}
+			return false, vfs.err.PermDenied
 		}
 	}
 
-	switch nc := nChild.(type) {
+	switch nChild.(type) {
 	case nil:
 	case *dirNode:
-		err := vfs.err.FileExists
 		if vfs.OSType() == avfs.OsWindows {
-			err = avfs.ErrWinAccessDenied
+			return false, avfs.ErrWinAccessDenied
 		}
 
-		return &os.LinkError{Op: op, Old: oldpath, New: newpath, Err: err}
+		return false, vfs.err.FileExists
 	default:
 		if oIsDir {
-			err := vfs.err.NotADirectory
 			if vfs.OSType() == avfs.OsWindows {
-				err = avfs.ErrWinAccessDenied
+				return false, avfs.ErrWinAccessDenied
 			}
 
-			return &os.LinkError{Op: op, Old: oldpath, New: newpath, Err: err}
+			return false, vfs.err.NotADirectory
 		}
 
 		if nChild == oChild {
 			// oldpath and newpath are hard links to the same file : nothing to do.
-			return nil
+			return false, nil
 		}
 
-		nc.delete()
+		vfs.unlink(nChild)
 	}
 
 	nParent.addChild(nPI.Part(), oChild)
 	oParent.removeChild(oPI.Part())
 
-	return nil
+	return false, nil
 }
 
 // SameFile reports whether fi1 and fi2 describe the same file.
@@ -997,6 +1161,16 @@ func (vfs *MemFS) Symlink(oldname, newname string) error {
 	verifYield(&parent.mu, true)
 	parent.mu.Lock()
 	defer parent.mu.Unlock()
+
+	if parent.removed {
+		// the directory has been removed since it was found.
+		return &os.LinkError{Op: op, Old: oldname, New: newname, Err: vfs.err.NoSuchDir}
+	}
+
+	if parent.children[pi.Part()] != nil {
+		// the new name has been created since it was looked up.
+		return &os.LinkError{Op: op, Old: oldname, New: newname, Err: vfs.err.FileExists}
+	}
 
 	if !parent.checkPermission(avfs.OpenWrite, vfs.User()) {
 		return &os.LinkError{Op: op, Old: oldname, New: newname, Err: vfs.err.PermDenied}
